@@ -202,7 +202,9 @@ void h_rel(void) {
     if (!in.st.known) { mac6_set(st2.mreal, in.st2.mreal); mac6_set(st2.mapp, in.st2.mapp); }   /* stale addresses differ */
     /* sequence and generation numbers are dead at the start of every request (each handler that uses one stores the
      * request's own value first): the relation lets them differ, so a change that makes a stale value live is exposed */
+#ifndef REL_SEQ_EQUAL      /* strong relation (REL_SEQ_EQUAL): used when the Reset demonstrably zeroes these fields */
     st2.seq = in.st2.seq; st2.gen_t = in.st2.gen_t; st2.gen_q = in.st2.gen_q;
+#endif
 #endif
     lltd_iface_state *s2 = build_state(&g_cfgA, &st2);
     rel_st = s2; rel_cached = (s2->small_icon != 0);
@@ -240,8 +242,8 @@ void h_rel(void) {
     /* equivalence of the post-records (lets single steps stand for arbitrary continuations) */
     V_ASSERT(p1.known == p2.known, "C09,C17: same mapper status afterwards");
     if (p1.known) V_ASSERT(mac6_eq(p1.mreal, p2.mreal) && mac6_eq(p1.mapp, p2.mapp), "C09,C17: same active mapper afterwards");
-#if REL_MODE == 0 || REL_MODE == 3
-    V_ASSERT(p1.seq == p2.seq && p1.gt == p2.gt && p1.gq == p2.gq, "C02,C17: same sequence and generation numbers afterwards");
+#if REL_MODE == 0 || REL_MODE == 3 || defined(REL_SEQ_EQUAL)
+    V_ASSERT(p1.seq == p2.seq && p1.gt == p2.gt && p1.gq == p2.gq, "C02,C09,C17: same sequence and generation numbers afterwards");
 #endif
     V_ASSERT(p1.icon == p2.icon && p1.icon_size == p2.icon_size, "C09,C17: same icon cache status afterwards");
     V_ASSERT(p1.count == p2.count && p1.sn.n == p2.sn.n, "C09,C17: same number of observations afterwards");
